@@ -226,6 +226,10 @@ pub struct InjectCfg {
     /// Foreign ICMP quotations may differ in the destination only (same identifier): the
     /// negative half of C02; outside C03's quantifier (distinct identifiers per tracer).
     pub icmp_other_destination: bool,
+    /// Background traffic on the receive socket: unrelated ICMP messages at about this
+    /// interval (0 = none), all through the run and whatever the tracer is doing, so that
+    /// some arrive while a round is only waiting for its deadline.
+    pub chatter_gap_ns: u64,
 }
 
 #[derive(Debug, Clone, Copy, PartialEq, Eq, Hash, PartialOrd, Ord)]
